@@ -1637,10 +1637,11 @@ Qed.
 
 Lemma wkey_eqb_eq a b : wkey_eqb a b = true -> a = b.
 Proof.
-  destruct a as [[[[a1 a2] a3] [a4 a5]] a6]. destruct b as [[[[b1 b2] b3] [b4 b5]] b6]. unfold wkey_eqb.
+  destruct a as [[[[[[a1 a2] a3] [a4 a5]] a6] a7] a8]. destruct b as [[[[[[b1 b2] b3] [b4 b5]] b6] b7] b8]. unfold wkey_eqb.
   intro H. repeat (apply andb_true_iff in H; destruct H as [H ?]).
   repeat match goal with X : (_ =? _) = true |- _ => apply Z.eqb_eq in X end.
-  match goal with X : list_eqb _ _ = true |- _ => apply list_eqb_eq in X end. subst. reflexivity.
+  match goal with X : list_eqb _ _ = true |- _ => apply list_eqb_eq in X end.
+  match goal with X : Bool.eqb _ _ = true |- _ => apply eqb_prop in X end. subst. reflexivity.
 Qed.
 
 Lemma skey_eqb_eq a b : skey_eqb a b = true -> a = b.
@@ -1670,13 +1671,15 @@ Section CacheProofs.
   Variable codec : wparams -> Z -> Z -> Z -> Z -> list Z.
   (* the only fact used about the weight codec (C07's subject): the stream length is a multiple of 16 *)
   Hypothesis codec_mult16 : forall w c d l b, zlen (codec w c d l b) mod 16 = 0.
+  (* any key function (wkey_of for the code that exists) *)
+  Variable keyf : request -> wkey.
 
   Definition wf_request (q : request) : Prop := strictly_increasing (wp_slices (q_wp q)).
 
   (* requests with equal cache keys have equal inputs: the weight key determines everything the weight stream depends on,
      and together with the scale key everything the scale records depend on *)
   Definition key_determines_inputs (h : list request) : Prop :=
-    forall q1 q2, In q1 h -> In q2 h -> wkey_of q1 = wkey_of q2 ->
+    forall q1 q2, In q1 h -> In q2 h -> keyf q1 = keyf q2 ->
       q_wp q1 = q_wp q2 /\
       (skey_of q1 = skey_of q2 -> q_biases q1 = q_biases q2 /\ q_qscales q1 = q_qscales q2).
 
@@ -1717,7 +1720,7 @@ Section CacheProofs.
 
   (* every cache entry was produced by a fresh encoding of an earlier request with that key *)
   Definition cache_inv (c : cache) (seen : list request) : Prop :=
-    forall e, In e c -> exists q', In q' seen /\ e_key e = wkey_of q' /\ encode_req codec q' true = Some (e_tensor e) /\
+    forall e, In e c -> exists q', In q' seen /\ e_key e = keyf q' /\ encode_req codec q' true = Some (e_tensor e) /\
                                   e_scc e = skey_of q'.
 
   Lemma encode_req_ext q q' do_w :
@@ -1726,15 +1729,15 @@ Section CacheProofs.
 
   Lemma respond_sound c seen q c' r :
     cache_inv c seen -> key_determines_inputs (q :: seen) -> wf_request q ->
-    respond codec c q = Some (c', r) ->
+    respond codec keyf c q = Some (c', r) ->
     cache_inv c' (q :: seen) /\
     exists tf, fresh codec q = Some tf /\ effective r = effective tf.
   Proof.
     intros Inv KD WF. unfold respond.
-    destruct (cache_get c (wkey_of q)) as [e|] eqn:Eg.
+    destruct (cache_get c (keyf q)) as [e|] eqn:Eg.
     - destruct (cache_get_In _ _ _ Eg) as [Hin Hk].
       destruct (Inv e Hin) as (q' & Hq' & Hk' & Henc & Hscc).
-      assert (Hkeys : wkey_of q = wkey_of q') by congruence.
+      assert (Hkeys : keyf q = keyf q') by congruence.
       destruct (KD q q' (or_introl eq_refl) (or_intror Hq') Hkeys) as [Hwp Hsc].
       destruct (skey_eqb (e_scc e) (skey_of q)) eqn:Es.
       + intro E. inversion E. subst c' r. split.
@@ -1763,13 +1766,13 @@ Section CacheProofs.
 
   Lemma run_sound h : forall c seen resps,
     cache_inv c seen -> key_determines_inputs (rev h ++ seen) -> Forall wf_request h ->
-    run codec c h = Some resps ->
+    run codec keyf c h = Some resps ->
     Forall2 (fun q r => exists tf, fresh codec q = Some tf /\ effective r = effective tf) h resps.
   Proof.
     induction h as [|q h IH]; intros c seen resps Inv KD WF; cbn [run].
     - intro E. inversion E. constructor.
-    - destruct (respond codec c q) as [[c' r]|] eqn:Er; [|discriminate].
-      destruct (run codec c' h) as [rs|] eqn:Erun; [|discriminate].
+    - destruct (respond codec keyf c q) as [[c' r]|] eqn:Er; [|discriminate].
+      destruct (run codec keyf c' h) as [rs|] eqn:Erun; [|discriminate].
       intro E. inversion E. subst resps. inversion WF as [|? ? WFq WFh]; subst.
       assert (KDq : key_determines_inputs (q :: seen)).
       { intros q1 q2 H1 H2. apply KD; cbn [rev]; rewrite <- app_assoc; apply in_or_app; right; assumption. }
@@ -1782,7 +1785,7 @@ Section CacheProofs.
   (* under key_determines_inputs every response of a history (misses and hits) carries, for every (core, slice) key, the
      same scale bytes and weight bytes as a fresh encoding of that request *)
   Theorem cache_reuse_sound_lemma h resps :
-    key_determines_inputs h -> Forall wf_request h -> run codec [] h = Some resps ->
+    key_determines_inputs h -> Forall wf_request h -> run codec keyf [] h = Some resps ->
     Forall2 (fun q r => exists tf, fresh codec q = Some tf /\ effective r = effective tf) h resps.
   Proof.
     intros KD WF E. apply (run_sound h [] [] resps); try assumption.
